@@ -32,6 +32,7 @@ clause → theorem
 * accepted resume installs peer and pending; acked only moves within (acked, sent] `resume_installs_peer_and_pending`
 * reconnect hands the pending resume over exactly once ........... `reconnect_consumes_once`
 * advance empties ring, resets offsets, discards pending ......... `advance_clears_ring_and_pending`
+* concurrent callers: one lock region per method ⇒ interleavings are sequential histories `single_section_ops`
 -/
 namespace Repe.C13
 open Repe Repe.Transfer
@@ -171,5 +172,19 @@ theorem advance_clears_ring_and_pending (m : OvMode) (s : State) (n : Nat) (hp :
   intro o
   simp only [step, hp, if_false, Bool.false_eq_true]
   cases s.cancelled <;> simp
+
+/-- Every method body takes the mutex exactly once (fact re-extracted on every run), so concurrent callers
+produce an interleaving of whole calls, i.e. a sequential history, and the ring theorems — stated for every
+history — apply to it: the ring is a suffix of the pushes and bounded, whatever the interleaving of the
+producer's pushes with inbound resumes, cancels and acks. -/
+theorem single_section_ops :
+    singleSection Gen.transferLockCalls = true ∧
+    ∀ (m' : OvMode) (window capacity : Nat) (ts : List (List Op)) (m : List Op), Merge ts m →
+      (∃ evicted, runLog F m' (init window capacity) [] m = evicted ++ (run F m' (init window capacity) m).chunks) ∧
+      (wireOf m < U64 →
+        (run F m' (init window capacity) m).bytesHeld = sumWire (run F m' (init window capacity) m).chunks ∧
+        ((run F m' (init window capacity) m).chunks.length ≤ 1 ∨
+          sumWire (run F m' (init window capacity) m).chunks ≤ capacity)) :=
+  ⟨by decide, fun m' w c _ m _ => ⟨ring_is_suffix m' w c m, fun hw => ring_bounded m' w c m hw⟩⟩
 
 end Repe.C13
